@@ -138,7 +138,7 @@ func raceMode(verifDir, outDir, replayDir, tier string, seed uint64, nw int) ([]
 		wg.Wait()
 	}
 	for sig, r := range sigText {
-		if !libFrame(r.A) && !libFrame(r.B) {
+		if r.Harness || (!libFrame(r.A) && !libFrame(r.B)) {
 			harness = append(harness, "race report without a library frame (harness race?):\n"+r.Text)
 			continue
 		}
